@@ -313,7 +313,8 @@ func mapperTotal(ph tmconsensus.HandleProposedHeaderResult, v tmconsensus.Handle
 // whose header the view lacks must have a fetch request the node still waits for (requested, not
 // cancelled, not answered) - otherwise the node can sit in the round with all votes and never commit.
 func checkFetchRequested(s *sim, op Op, before viewKey) {
-	if op.K != "vote" || op.DH != 0 || op.DR != 0 || !s.alive || s.fail != nil {
+	if op.K != "vote" || op.DH != 0 || op.DR != 0 || !s.alive || s.fail != nil || s.fetchBusy {
+		// (while the fetcher's queue is full the node cannot place a request; it has to try again later)
 		return
 	}
 	if before.H != s.vv.Height || before.R != s.vv.Round || len(s.lastVoteRes) == 0 {
@@ -426,7 +427,7 @@ func c09Spec() propSpec {
 		prop: "C09", test: "TestVerifC09MirrorHostile",
 		rule: "histories of 3-40 ops against one real Mirror: proposed headers / votes at relative heights -2..+3 and rounds -1..+3 with every content, commit-proof and signature corruption variant, replayed headers of every variant, state machine entrances and actions, stalled consumers, concurrent groups, clean restarts; one proposed-header / vote call in six is made by an impatient caller whose context reports cancellation from a generated poll on (i.e. at a generated point inside the call); every call has a fake-time deadline and a poll-counting context; non-trivial = some input outside the (voting height, voting round) window or malformed; distinct = fingerprint of (config, op list)",
 		profile: genProfile{
-			w:              map[string]int{"ph": 8, "vote": 10, "round": 4, "replay": 3, "sment": 2, "smact": 2, "stall": 1, "read": 1, "conc": 2, "restart": 1, "time": 1, "fetch": 2},
+			w:              map[string]int{"ph": 8, "vote": 10, "round": 4, "replay": 3, "sment": 2, "smact": 2, "stall": 1, "read": 1, "conc": 2, "restart": 1, "time": 1, "fetch": 2, "fbusy": 1},
 			phVariants:     allVariants(phVariants),
 			pcpVariants:    allVariants(pcpVariants),
 			voteCorr:       allVariants(vcVariants),
